@@ -76,6 +76,7 @@ pub fn run(report: &Report, thorough: bool) -> Evidence {
     let total = Mutex::new(GraphStats::default());
     let validated = AtomicU64::new(0);
     let unspecified = AtomicU64::new(0);
+    let sweep = AtomicU64::new(0);
     let reph_conservation_only = AtomicU64::new(0);
     let rule_hits: Mutex<HashMap<&'static str, u64>> = Mutex::new(HashMap::new());
     let samples = Samples::new(8);
@@ -164,6 +165,40 @@ pub fn run(report: &Report, thorough: bool) -> Evidence {
                     }
                 }
             });
+            // class sweep: the alphabet above has one representative per class; here EVERY ASCII
+            // punctuation character and a set of other non-letter characters a layout may emit is
+            // put in front of every key of the alphabet (one step, state set through the hook)
+            let mut sweep_chars: Vec<char> = (33u8..=126).map(|b| b as char).filter(|c| c.is_ascii_punctuation()).collect();
+            sweep_chars.extend("0 aZ\u{0964}\u{0965}\u{09E7}\u{0983}\u{09BD}\u{09F3}\u{200D}".chars());
+            for &c in &sweep_chars {
+                for prefix in ["", "\u{0995}"] {
+                    let pre = crate::fxgraph::FxState { buf: format!("{}{}", prefix, c), typed: String::new(), pending: 0 };
+                    for (sym, ev) in alphabet.iter().enumerate().take(bs_sym) {
+                        crate::fxgraph::restore(&ctx, &pre);
+                        let out = ctx.apply(ev);
+                        sweep.fetch_add(1, Ordering::Relaxed);
+                        let got = match &out {
+                            Ok(Out::Sugg(r)) => r.text(),
+                            _ => {
+                                report.add(Violation::new("C12", "panic", "panic:class-sweep").opts(&ctx.opts).feat("pre", crate::bn::esc(&pre.buf)).events(&[ev.clone()]).detail(format!("{:?} on synthetic state {:?}", out, pre.buf)));
+                                continue;
+                            }
+                        };
+                        if let RefOut::Text(exp) = fixed_step_ref(&pre.buf, &values[sym], &ctx.opts) {
+                            if got != exp {
+                                report.add(
+                                    Violation::new("C12", "ref-step-mismatch", &format!("sweep:{}:after-{}", crate::bn::esc(&values[sym]), crate::bn::esc(&c.to_string())))
+                                        .opts(&ctx.opts)
+                                        .feat("pre", crate::bn::esc(&pre.buf))
+                                        .feat("synthetic_state", "true")
+                                        .events(&[ev.clone()])
+                                        .detail(format!("composition {:?} (state set directly) + key value {:?} gave {:?}, rule chain says {:?}", pre.buf, values[sym], got, exp)),
+                                );
+                            }
+                        }
+                    }
+                }
+            }
             total.lock().unwrap().merge(&stats);
             if !stats.closed {
                 *closed_all.lock().unwrap() = false;
@@ -186,6 +221,7 @@ pub fn run(report: &Report, thorough: bool) -> Evidence {
     ev.set("max_composition_length", max_len);
     ev.set("settings", 16);
     ev.set("alphabet", json!(ALPHABET.iter().zip(values.iter()).map(|((c, a), v)| format!("{}{} -> {}", c, if *a { "+AltGr" } else { "" }, crate::bn::esc(v))).collect::<Vec<_>>()));
+    ev.set("class_sweep_transitions", sweep.load(Ordering::Relaxed));
     ev.set("unspecified_transitions", unspecified.load(Ordering::Relaxed));
     ev.set("reph_outside_grammar_conservation_only", reph_conservation_only.load(Ordering::Relaxed));
     ev.set("rule_hits", json!(*rule_hits.lock().unwrap()));
